@@ -391,10 +391,26 @@ func (n NaturalLanguageValues) MarshalJSON() ([]byte, error) {
 	}
 	b.Write([]byte{'{'})
 	empty := true
+	// a JSON object holds one value per member name: of several values with the same language tag
+	// the first one is written, which is the one Get returns
+	keys := make([][]byte, 0, l)
 	for _, val := range n {
 		if len(val.Ref) == 0 || len(val.Value) == 0 {
 			continue
 		}
+		key := bytes.Buffer{}
+		stringBytes(&key, []byte(val.Ref), false)
+		seen := false
+		for _, k := range keys {
+			if bytes.Equal(k, key.Bytes()) {
+				seen = true
+				break
+			}
+		}
+		if seen {
+			continue
+		}
+		keys = append(keys, key.Bytes())
 		if !empty {
 			b.Write([]byte{','})
 		}
